@@ -399,6 +399,16 @@ pub fn run(case: &str, st: &mut Stats) -> Outcome {
             }
             _ => answer(&b, &pool, q, total),
         };
+        // on the builder under test only (never on the fresh copies): after a semantic-hash query the
+        // same entry is also asked for its CACHED hash in another field, which fills the per-node
+        // hash memo; later hash queries (64-bit field, fold with the weights given) on entries
+        // sharing those nodes must not see it
+        if let Q::H(i) = q {
+            use rsdd::repr::VarOrder;
+            let order = VarOrder::new(&prog.pos_to_var().iter().map(|v| VarLabel::new(*v as u64)).chain((prog.nvars..total).map(|v| VarLabel::new(v as u64))).collect::<Vec<_>>());
+            let small = create_semantic_hash_map::<{ primes::U32_SMALL }>(total);
+            let _ = pool[*i].cached_semantic_hash(&order, &small);
+        }
         // every per-node scratch slot is empty again
         let dirty = pool.iter().any(|p| uncleared(*p)) || res.map_or(false, uncleared);
         if dirty {
